@@ -151,7 +151,30 @@ func c12HandScenarios() []*c12Scen {
 	)
 	h3.Files["himp1/types.go"] = "package sc\n\nimport \"vb/ext\"\n\ntype SB struct {\n\tK ext.MInt\n\tC int\n}\ntype DB struct {\n\tK ext.MStr\n\tC int\n}\n"
 	r = append(r, h3)
+	// the generated code needs a package that NO file of the directory imports (goimports has to add
+	// the import): a stale output importing a same-named package under another path must not be consulted
+	himp2 := mk("himp2",
+		"//go:build convergen\n\npackage sc\n\nimport \"vb/himp2/m\"\n\ntype Convergen interface {\n\t// :typecast\n\tToDC(*SC) *m.DC\n}\n",
+		c12Version{"rename-method", "//go:build convergen\n\npackage sc\n\nimport \"vb/himp2/m\"\n\ntype Convergen interface {\n\t// :typecast\n\tToDCOld(*SC) *m.DC\n}\n"},
+	)
+	himp2.Files["himp2/types.go"] = "package sc\n\ntype SC struct {\n\tCode int\n\tName string\n}\n"
+	himp2.Files["himp2/m/m.go"] = "package m\n\nimport \"vb/ext\"\n\ntype DC struct {\n\tCode ext.MInt\n\tName string\n}\n"
+	r = append(r, himp2)
+	// a package-qualified converter: the qualifier must be resolved through the imports of the setup file alone
+	himp3 := mk("himp3",
+		"//go:build convergen\n\npackage sc\n\nimport _ \"vb/ext\"\n\ntype Convergen interface {\n\t// :conv ext.ConvIntStr Code Label\n\tToDL(*SC) *DL\n}\n",
+		c12Version{"rename-method", "//go:build convergen\n\npackage sc\n\nimport _ \"vb/ext\"\n\ntype Convergen interface {\n\t// :conv ext.ConvIntStr Code Label\n\tToDLOld(*SC) *DL\n}\n"},
+	)
+	himp3.Files["himp3/types.go"] = "package sc\n\ntype SC struct {\n\tCode int\n\tName string\n}\ntype DL struct {\n\tLabel string\n\tName  string\n}\n"
+	r = append(r, himp3)
 	return r
+}
+
+// c12LegacyFiles are packages that carry the names of imported packages under another (lexically
+// smaller) import path; only stale pre-states import them.
+var c12LegacyFiles = map[string]string{
+	"c12legacy/ext/ext.go": "// Package ext is what vb/ext was before it moved.\npackage ext\n\nconst Legacy12 = 12\n\nfunc ConvIntStr(v string) string { return \"legacy:\" + v }\n",
+	"c12legacy/m/m.go":     "// Package m is what the scenario's m was before it moved.\npackage m\n\nconst Legacy12 = 12\n",
 }
 
 // c12DeriveVersions makes older versions of a generated scenario by editing its first
@@ -277,6 +300,9 @@ func (sc *c12Scen) materialise(root string, files map[string]string, setup strin
 		return err
 	}
 	if err := core.WriteTree(root, files); err != nil {
+		return err
+	}
+	if err := core.WriteTree(root, c12LegacyFiles); err != nil {
 		return err
 	}
 	if setup != "" {
@@ -611,6 +637,22 @@ func c12PreStates(sc *c12Scen, clean []byte, stale map[string][]byte, r *rand.Ra
 		"//go:build (\n\npackage PKG\n",
 	} {
 		add("header", fmt.Sprintf("header#%d %q", i, core.Trunc(t, 50)), fmt.Sprintf("header#%d", i), []byte(strings.ReplaceAll(t, "PKG", pkg)), true)
+	}
+	// valid Go of the same package whose IMPORTS name a package that also the sources import, under another path
+	imps := []string{
+		"package PKG\n\nimport \"vb/c12legacy/ext\"\n\nvar _ = ext.Legacy12\n",
+		"package PKG\n\nimport ext \"vb/c12legacy/ext\"\n\nvar _ = ext.ConvIntStr\n",
+		"package PKG\n\nimport (\n\t\"vb/c12legacy/ext\"\n\t\"vb/c12legacy/m\"\n)\n\nvar _, _ = ext.Legacy12, m.Legacy12\n",
+		"package PKG\n\nimport m \"vb/c12legacy/ext\"\n\nvar _ = m.Legacy12\n",
+	}
+	if clean != nil {
+		if bytes.Contains(clean, []byte("\"vb/ext\"")) {
+			imps = append(imps, string(bytes.ReplaceAll(clean, []byte("\"vb/ext\""), []byte("\"vb/c12legacy/ext\""))))
+		}
+		imps = append(imps, string(bytes.Replace(clean, []byte("\npackage "+pkg+"\n"), []byte("\npackage "+pkg+"\n\nimport ext \"vb/c12legacy/ext\"\n\nvar _ = ext.Legacy12\n"), 1)))
+	}
+	for i, t := range imps {
+		add("imports", fmt.Sprintf("imports#%d %q", i, core.Trunc(t, 70)), fmt.Sprintf("imports#%d", i), []byte(strings.ReplaceAll(t, "PKG", pkg)), true)
 	}
 	// a different package clause
 	for i, t := range []string{
